@@ -86,8 +86,16 @@ CHECKS["C20"] = dict(
     text="refcount_refines, delete_iff_zero, never_delete_unregistered, counts_positive, malformed_is_noop, "
     "eof_deletes_rest_folders_last, parse_send_format for request histories of any length over the Lean model of "
     "resource_tracker.main; histories (incl. malformed lines, several clients exiting or SIGKILLed) are sent to the REAL tracker "
-    "process over its pipe and on-disk existence is compared with the model and with a plain refcount oracle after every request.",
-    note="modelled not verified: pipe EOF and write atomicity, readline, the warnings module, os.unlink/rmtree/sem_unlink.",
+    "process over its pipe and on-disk existence is compared with the model and with a plain refcount oracle after every request. "
+    "CLIENT side (lean/JoblibModel/TrackerClient.lean: TemporaryResourcesManager, the forward reducer's registrations and extra "
+    "reference, executor reuse, MemmappingPool, worker un-pickle / finalizers / exit / SIGKILL, parent exit, composed with the tracker "
+    "model and a disk): client_tracker_composed, client_requests_wellformed, refcount_matches_users(_repaired), "
+    "never_deleted_while_held (every operation sequence, the code as repaired by F45) + never_deleted_while_held_partial and "
+    "extra_reference_released_twice_counterexample (the older code), eventually_deleted(_at_exit), client_invariants; generated client "
+    "programs run on the real manager / reducers / tracker and are compared with the model step by step (request stream, folders, files).",
+    note="modelled not verified: pipe EOF and write atomicity, readline, the warnings module, os.unlink/rmtree/sem_unlink; client side: "
+    "tracker and client in synchrony after each step, uuid uniqueness of folder / file names, memmaps held by MemmappingPool workers are "
+    "unregistered by design (judged by the probe's oracle, not by the tracker-side theorem).",
     technique="Lean 4 proof (induction over the request log, refinement to an abstract refcount) + differential correspondence with the real tracker process",
     ref="6/C20",
 )
